@@ -313,6 +313,29 @@ def _harness(env, case):
     raise ValueError(kind)
 
 
+def concrete_integer_powers(rep):
+    """poly(x, d, raw=True) on columns of integer dtype returns exactly the powers (plain API, compared
+    with Python's unbounded integers)"""
+    from formulae import design_matrices
+
+    n = 0
+    for dt, vals in (("int8", [3, -5, 11, 100]), ("int16", [182, -150, 7, 30000]), ("int32", [2019, 46341, -70000, 5]), ("int64", [2150000, -3, 12, 99999]), ("uint8", [200, 16, 3, 255])):
+        df = pd.DataFrame({"y": [0.5, 1.5, 2.5, 3.5], "k": np.array(vals, dtype=dt)})
+        for d in (2, 3):
+            n += 1
+            name = f"poly(k, {d}, raw=True)"
+            try:
+                X = np.asarray(design_matrices(f"y ~ 0 + {name}", df).common[name], dtype=float).reshape(len(vals), -1)
+            except Exception as e:  # noqa
+                rep.violations.append({"label": "a valid transform call is refused", "signature": {"what": "integer powers", "dtype": dt, "degree": d, "exc": type(e).__name__}, "replay": {"dtype": dt, "degree": d}, "reproduced": True, "detail": f"{name} on {dt}: {type(e).__name__}: {e}"[:200]})
+                continue
+            want = [[float(v ** k) for k in range(1, d + 1)] for v in vals]
+            if X.shape != (len(vals), d) or any(abs(X[i, j] - want[i][j]) > 1e-9 * max(1.0, abs(want[i][j])) for i in range(len(vals)) for j in range(d)):
+                rep.violations.append({"label": "poly(x, d, raw=True) returns exactly the powers x^1..x^d", "signature": {"what": "integer powers", "dtype": dt, "degree": d}, "replay": {"dtype": dt, "degree": d, "got": X.tolist(), "want": want},
+                                       "reproduced": True, "detail": f"{name} on an {dt} column: {X.tolist()} instead of {want}"[:300]})
+    rep.extra["concrete_integer_powers"] = n
+
+
 def run(tier, seed):
     rep = core.Report(ID, tier, seed)
     rep.functions = ["formulae.transforms.Center.__call__", "formulae.transforms.Scale.__call__", "formulae.transforms.Polynomial.__call__/eval (raw and three-term recurrence, object work buffer)",
@@ -329,5 +352,6 @@ def run(tier, seed):
     rep.assumptions = ["std != 0 (scale)", "x not constant (poly)"]
     rep.rule = "one case = one transform scenario / one bs parameter combination; non-trivial = all"
     pipe.run_cases(rep, "vf.props.c14", "harness", cs, timeout_ms=60000)
+    concrete_integer_powers(rep)
     rep.nontrivial = rep.cases
     return core.finish(rep)
